@@ -11,6 +11,10 @@ PROP = dict(
                     "(thorough) random histories over 2..5 identifiers; after each operation every identifier is read back and "
                     "compared with its shadow, the source of a copy is compared byte-wise with its snapshot, the block that held "
                     "replaced long content must be freed (ASan poison state), and LeakSanitizer runs at process exit.  "
+                    "Node lists: 4k (quick) / 60k (thorough) PRNG lists of 3..8 nodes with equal and near-equal names (shorter/longer by one, "
+                    "first/last byte changed, binary, unset) searched with mpt_node_locate from every start node, pos -3..3, six name "
+                    "variants, name handed over NUL-terminated / as front part of a longer string / in an exact-size block / with "
+                    "explicit text charset / as binary; result = n-th string-equal node of the model.  "
                     "Exploration, not proof: lengths between the boundaries are sampled."),
         level_note=("trusts the byte-array shadow in harness/c16_ident.c / c16_cxx.cpp, gcc ASan/UBSan red zones and poison state, "
                     "LeakSanitizer (conservative scan: secondary to the explicit release witness)"),
@@ -21,7 +25,10 @@ PROP = dict(
                            "transition:long>long": 5000, "monitor:release-witness": 10000, "monitor:readback": 200000,
                            "monitor:compare-equal": 20000, "monitor:compare-different": 50000,
                            "monitor:inequal-equal": 5000, "monitor:inequal-different": 5000,
-                           "monitor:source-unchanged": 20000, "outcome:refused-too-long": 100}),
+                           "monitor:source-unchanged": 20000, "outcome:refused-too-long": 100,
+                           "monitor:locate-forward-hit": 100000, "monitor:locate-backward-hit": 50000, "monitor:locate-last-hit": 20000,
+                           "monitor:locate-back-hit-unterminated-name": 30000, "monitor:locate-backward-hit-beyond-neighbour": 20000,
+                           "monitor:locate-miss": 100000}),
               dict(name="c16_cxx", memcheck=500, src=["c16_cxx.cpp"], libs=["mpt++", "mptio", "mptplot", "mptcore"], batch=256, lsan=True,
                    floors={"identifier::set_name": 5000, "identifier::operator=": 2000, "identifier::identifier(copy)": 500,
                            "identifier::equal": 10000, "item::operator=": 300, "transition:long>short": 500,
@@ -31,8 +38,9 @@ PROP = dict(
               "0, 1, cap-3..cap+2, 255, 256, 65533, 65534 (limit), 65535/65536 (must be refused), text with embedded NUL, binary "
               "of length 1, cap, cap+1, 65535, 65536 (refused), followed by a comparison battery and one further set; or (b) one "
               "PRNG history of 6..40 set/copy/clear/compare/inequal/copy-construct/drop operations over 2..5 identifiers of "
-              "random storages; non-trivial = (a) the operation replaced or created separately allocated (long) content, "
-              "(b) >= 2 such transitions and >= 1 copy between two different identifiers; distinct = 64-bit hash of grid index "
+              "random storages; or (c) one PRNG node list with every (start node, pos -3..3, name variant, hand-over mode) "
+              "mpt_node_locate query; non-trivial = (a) the operation replaced or created separately allocated (long) content, "
+              "(b) >= 2 such transitions and >= 1 copy between two different identifiers, (c) the list holds the base name at least twice; distinct = 64-bit hash of grid index "
               "resp. of the operation list with content prefix"),
         exhaustive_note=("all (storage, previous content class, new content class) triples for set-after-set (16 x 17 x 22), all "
                          "(target storage, target content, source storage, source content) for copy (16 x 17 x 16 x 17), all "
